@@ -288,6 +288,7 @@ strat_spec = st.one_of(
 
 
 class Histories(Sub):
+    fuzz_runs = 3000
     name = "histories"
     n = {"quick": 700, "thorough": 20000}
 
